@@ -681,13 +681,14 @@ class FrequencyResponseData(LTI):
             raise ValueError("eval can only accept real-valued frequencies")
 
         if self._ifunc is None:
-            elements = np.isin(self.omega, omega)  # binary array
-            if sum(elements) < len(omega_array):
+            # index of each requested frequency in the stored list
+            matches = [np.flatnonzero(self.omega == w) for w in omega_array]
+            if any(len(match) == 0 for match in matches):
                 raise ValueError(
                     "not all frequencies are in frequency list of FRD "
                     "system. Try an interpolating FRD for additional points.")
             else:
-                out = self.frdata[:, :, elements]
+                out = self.frdata[:, :, [match[0] for match in matches]]
         else:
             out = empty((self.noutputs, self.ninputs, len(omega_array)),
                         dtype=complex)
